@@ -127,8 +127,9 @@ def shutdown (K : Codecs) (s : Srv) : Srv :=
   { s with disk := { s.disk with files := runSteps s.disk.files (shutdownSteps K s.mem) } }
 
 /-- records of an acknowledged write that are still in the chunk writer's buffer (the writer flushes on a timer,
-`WriteFlushMs`). A graceful shutdown keeps them only if something syncs the journals: `partition.Service.Shutdown`
-does not (`Generated.C07.partitionShutdownSyncsJournals`) and the library's journal controller has no `Shutdown`. -/
+`WriteFlushMs`). A graceful shutdown keeps them only if something syncs the journals: the library's journal controller has
+no `Shutdown`; `partition.Service.Shutdown` does it since the repair of finding F42
+(`Generated.C07.partitionShutdownSyncsJournals`). -/
 def flushPending (db : List (Src × List Chunk)) (src : Src) (pieces : List (Nat × List Int)) : List (Src × List Chunk) :=
   aset db src (pieces.foldl (fun cks pc => appendToChunk cks pc.1 pc.2) ((alookup db src).getD []))
 
